@@ -79,6 +79,7 @@ fn op_nums(op: &Op) -> Vec<i64> {
         Op::KExport { dt } => vec![*dt as i64],
         Op::OIns { k } | Op::ODel { k } | Op::OGet { k } | Op::OHold { k } | Op::ONext { k } | Op::OPrev { k } => vec![*k as i64],
         Op::OFirst { p } | Op::OHRead { p } | Op::OHWrite { p } | Op::OHDel { p } => vec![*p as i64],
+        Op::OBulk { n, pat } => vec![*n as i64, *pat as i64],
         Op::SIns { a, b, exp } => vec![*a, *b, *exp as i64],
         Op::SQuery { a, b, take } => vec![*a, *b, *take as i64],
         _ => vec![],
@@ -99,6 +100,8 @@ fn with_num(op: &Op, idx: usize, v: i64) -> Op {
         (Op::KExport { dt }, 0) => *dt = i,
         (Op::OIns { k }, 0) | (Op::ODel { k }, 0) | (Op::OGet { k }, 0) | (Op::OHold { k }, 0) | (Op::ONext { k }, 0) | (Op::OPrev { k }, 0) => *k = i,
         (Op::OFirst { p }, 0) | (Op::OHRead { p }, 0) | (Op::OHWrite { p }, 0) | (Op::OHDel { p }, 0) => *p = i,
+        (Op::OBulk { n, .. }, 0) => *n = i.max(1),
+        (Op::OBulk { pat, .. }, 1) => *pat = i.clamp(0, 2) as u8,
         (Op::SIns { a, .. }, 0) | (Op::SQuery { a, .. }, 0) => *a = v,
         (Op::SIns { b, .. }, 1) | (Op::SQuery { b, .. }, 1) => *b = v,
         (Op::SIns { exp, .. }, 2) => *exp = i,
@@ -117,7 +120,7 @@ fn simpler_ops(op: &Op) -> Vec<Op> {
         Op::OHDel { p } => vec![Op::ODel { k: *p }],
         Op::OHRead { p } => vec![Op::OGet { k: *p }],
         Op::OWalk => vec![],
-        Op::SQuery { a, b, take } if *take >= 0 => vec![Op::SQuery { a: *a, b: *b, take: -1 }],
+        Op::SQuery { a, b, take } if *take != -1 => vec![Op::SQuery { a: *a, b: *b, take: -1 }],
         _ => vec![],
     }
 }
@@ -198,6 +201,10 @@ fn compress_keys(t: &Trace) -> Trace {
     }
     let mut keys: BTreeSet<i64> = BTreeSet::new();
     for s in &t.steps {
+        if matches!(s.op, Op::OBulk { .. }) {
+            // keys of a bulk build are implied by its size: leave such traces alone
+            return t.clone();
+        }
         if !matches!(s.op, Op::Tick { .. } | Op::KClear { .. } | Op::KExport { .. } | Op::SClear { .. }) {
             if let Some(k) = op_nums(&s.op).first() {
                 keys.insert(*k);
@@ -320,7 +327,8 @@ pub fn shrink(trace: &Trace, failure: &Failure, budget: Duration, max_cands: u64
             sh.try_adopt(&c);
         }
         let mut c = sh.best.clone();
-        if c.cfg.key_lo != 0 && c.cfg.world != crate::core::WorldKind::Seg {
+        let has_bulk = c.steps.iter().any(|s| matches!(s.op, Op::OBulk { .. }));
+        if c.cfg.key_lo != 0 && c.cfg.world != crate::core::WorldKind::Seg && !has_bulk {
             let d = c.cfg.key_lo;
             c.cfg.key_lo = 0;
             for s in c.steps.iter_mut() {
@@ -332,7 +340,7 @@ pub fn shrink(trace: &Trace, failure: &Failure, budget: Duration, max_cands: u64
             sh.try_adopt(&c);
         }
         let mut c = sh.best.clone();
-        if c.cfg.universe > 16 {
+        if c.cfg.universe > 16 && !c.steps.iter().any(|s| matches!(s.op, Op::OBulk { .. })) {
             c.cfg.universe = 16;
             sh.try_adopt(&c);
         }
